@@ -213,6 +213,14 @@ class CallGraph:
                             ts = self._method_targets(r[1].name, meth, include_sub=False)
                             E.update(ts)
                             continue
+                        if r and r[0] == "const" and isinstance(r[2], ast.Call) and isinstance(r[2].func, ast.Name):
+                            # module-level instance `X = Class(...)`: the receiver type is known exactly
+                            rc = repo.resolve_name(r[1], r[2].func.id)
+                            if rc and rc[0] == "class":
+                                ts = self._method_targets(rc[1].name, meth, include_sub=True)
+                                if ts:
+                                    E.update(ts)
+                                    continue
                     if meth in repo.classes and meth[:1].isupper():
                         # dotted constructor call: pkg.mod.Class(...)
                         self.ctor_sites.setdefault(n.fid, []).append((meth, node))
